@@ -45,7 +45,7 @@ def emit_addValues(R, contract=None, loops=None):
     b = R.sub("R5-local-vector", r'std::vector<double>\s+combined_values\(([^;]*)\);', r'size_t combined_values_size = \1; double *combined_values = tsg_new_double(combined_values_size);', b)
     b = R.sub("R5-iter-decl", r'auto\s+ivals\s*=\s*values\.begin\(\)\s*;', 'size_t ivals = 0;', b)
     b = R.sub("R5-iter-decl", r'auto\s+icombined\s*=\s*combined_values\.begin\(\)\s*;', 'size_t icombined = 0;', b)
-    b = R.sub("R5-copy_n", r'std::copy_n\(\s*&\(new_vals\[off_vals\]\)\s*,\s*self->num_outputs\s*,\s*icombined\s*\)', 'tsg_copy_n_double(&(new_vals[off_vals]), self->num_outputs, &combined_values[icombined])', b)
+    b = R.sub("R5-copy_n", r'std::copy_n\(\s*(&\(new_vals\[[^\]]+\]\))\s*,\s*self->num_outputs\s*,\s*icombined\s*\)', r'tsg_copy_n_double(\1, self->num_outputs, &combined_values[icombined])', b)
     b = R.sub("R5-copy_n", r'std::copy_n\(\s*ivals\s*,\s*self->num_outputs\s*,\s*icombined\s*\)', 'tsg_copy_n_double(&self->values[ivals], self->num_outputs, &combined_values[icombined])', b)
     b = R.sub("R5-advance", r'std::advance\(\s*(ivals|icombined)\s*,\s*self->num_outputs\s*\)', r'\1 += self->num_outputs', b)
     b = R.sub("R5-swap", r'std::swap\(\s*values\s*,\s*combined_values\s*\)\s*;', 'TSG_SWAP(double *, self->values, combined_values); TSG_SWAP(size_t, self->values_size, combined_values_size);', b)
